@@ -281,10 +281,13 @@ Definition E_CONFLICT : Z := 4.  (* AlreadyExists, and the conflicting job could
 Definition E_FUEL : Z := 9.      (* model artefact *)
 
 (* createJob fetches the conflicting job with jobTemplate.Namespace, which
-   getJobFromTemplate never sets: client-go refuses a named GET with an empty
-   namespace, so against a real API server the adoption branch (395-421) ends
-   in "failed to fetch conflicting job".  [lenient] = the job client ignores
-   the namespace, as the fake of the package's own tests does. *)
+   getJobFromTemplate never sets.  With an empty namespace the generated client
+   (client-go gentype: NamespaceIfScoped(ns, ns != "")) sends a cluster-scoped
+   GET .../jobs/<name>, which an API server answers 404 for a namespaced
+   resource (older clients refuse the request before sending it): against a
+   real API server the adoption branch (395-421) therefore always ends in an
+   error ("disappeared after creation conflict").  [lenient] = the job client
+   ignores the namespace, as the fake of the package's own tests does. *)
 Variable lenient : bool.
 
 Record rout := mkOut {
